@@ -172,7 +172,7 @@ func c13MkEnv(v int) map[string]TV {
 		"s1": tvS([]string{"hi", "yo", "abc", "Hi"}[v]), "s2": tvS("bob ray"), "se": tvS(""), "sp": tvS("  pad  "),
 		"selfname": tvS("selfname"), "sn": tvS("42"), "sf": tvS("2.5"), "sb": tvS("true"), "sneg": tvS("-3"), "sbad": tvS("bad"), "sx": tvS("a<b&c"),
 		"bt": tvB(true), "bf": tvB(false), "b1": tvB(v&1 == 1), "b2": tvB(v&2 == 2),
-		"nl": tvNil(), "t": tvS("tee"),
+		"nl": tvNil(), "t": tvS("tee"), "hNil": tvNil(), // hNil: a nil variable named like a registered function
 		"m": tvMap(map[string]TV{"x": tvI(5 + v), "name": tvS("bob"), "ok": tvB(true), "off": tvB(false), "r": tvF(1.25),
 			"in": tvMap(map[string]TV{"k": tvI(9 - v), "w": tvS("deep")})}),
 		"l": tvList(tvI(10+v), tvI(20), tvI(30)), "ls": tvKind("[]string", tvS("p"), tvS("q")), "li": tvKind("[]int", tvI(4), tvI(5+v)), "li1": tvKind("[]int", tvI(9)),
@@ -864,6 +864,8 @@ func init() {
 	c13Reg(&c13Fn{Name: "hKind", Params: []string{"any"}, Go: func(v any) string { return fmt.Sprintf("%T", v) },
 		Ref: func(a []c13V) (c13V, c13St) { return c13VS(fmt.Sprintf("%T", c13GoVal(a[0]))), ok }})
 	c13Reg(&c13Fn{Name: "hId", Params: []string{"any"}, Go: func(v any) any { return v },
+		Ref: func(a []c13V) (c13V, c13St) { return a[0], ok }})
+	c13Reg(&c13Fn{Name: "hNil", Params: []string{"any"}, Go: func(v any) any { return v },
 		Ref: func(a []c13V) (c13V, c13St) { return a[0], ok }})
 	c13Reg(&c13Fn{Name: "hJoin", Variadic: "string", Go: func(p ...string) string { return strings.Join(p, "-") },
 		Ref: func(a []c13V) (c13V, c13St) { return c13VS(c13JoinV(a, "-")), ok }})
